@@ -269,6 +269,8 @@ pub struct Req {
     pub control: bool,
     /// answered by the node itself (handshake, system tables, automatic USE)
     pub internal: bool,
+    /// wall clock at arrival
+    pub at: std::time::Instant,
 }
 
 #[derive(Clone, Debug)]
@@ -281,6 +283,9 @@ pub struct ConnInfo {
     /// clock value when READY was written
     pub ready: Option<u64>,
     pub closed: Option<u64>,
+    /// wall clock of the same two events
+    pub ready_at: Option<std::time::Instant>,
+    pub closed_at: Option<std::time::Instant>,
     pub control: bool,
     pub keyspace: Option<String>,
     /// (clock, keyspace) for every SetKeyspace written
@@ -515,6 +520,23 @@ impl MockCluster {
         })
     }
 
+    /// Waits until the session knows all nodes and sees every listening node connected (at least one pool connection).
+    pub async fn wait_connected(&self, session: &scylla::client::session::Session, timeout: Duration) -> bool {
+        let t0 = std::time::Instant::now();
+        loop {
+            let n = self.n_nodes();
+            let up = self.listeners.lock().unwrap().iter().filter(|l| l.is_some()).count();
+            let cs = session.get_cluster_state();
+            if cs.get_nodes_info().len() == n && cs.get_nodes_info().iter().filter(|x| x.is_connected()).count() >= up {
+                return true;
+            }
+            if t0.elapsed() > timeout {
+                return false;
+            }
+            tokio::time::sleep(Duration::from_millis(5)).await;
+        }
+    }
+
     /// Waits until the session knows all nodes, sees them connected, and the nodes see full pools; then lets the
     /// pools settle (a connection that is READY at the node enters the client's pool a moment later).
     pub async fn wait_pools_full(&self, session: &scylla::client::session::Session, timeout: Duration) -> bool {
@@ -540,7 +562,7 @@ impl MockCluster {
 
     // ------------------------------------------------------------------------------------------ faults
 
-    /// Closes (FIN) the live connections of a node; `control`: also the control connection.
+    /// Closes (RST) the live connections of a node; `control`: also the control connection.
     pub fn kill_connections(&self, node: usize, control: bool) -> usize {
         let st = self.shared.st.lock().unwrap();
         let mut k = 0;
@@ -642,6 +664,12 @@ fn spawn_listener(shared: Arc<Shared>, node: usize, listener: TcpListener, port:
             };
             let Ok((sock, peer)) = acc else { return };
             let _ = sock.set_nodelay(true);
+            // SO_LINGER 0: whenever the node's side of a connection is dropped (kill, teardown at the end of a case) the
+            // peer gets RST, so neither side lingers in TIME_WAIT. (The driver binds its source port explicitly, and
+            // thousands of TIME_WAIT sockets per run would exhaust the ephemeral ports of the machine.) A scripted
+            // graceful close (`Act::Close`) switches lingering back on and sends FIN.
+            #[allow(deprecated)]
+            let _ = sock.set_linger(Some(Duration::ZERO));
             let (conn, shard, kill) = {
                 let mut st = shared.st.lock().unwrap();
                 let mode = st.topo.nodes[node].shards;
@@ -662,6 +690,8 @@ fn spawn_listener(shared: Arc<Shared>, node: usize, listener: TcpListener, port:
                     opened,
                     ready: None,
                     closed: None,
+                    ready_at: None,
+                    closed_at: None,
                     control: false,
                     keyspace: None,
                     keyspace_acks: Vec::new(),
@@ -673,7 +703,9 @@ fn spawn_listener(shared: Arc<Shared>, node: usize, listener: TcpListener, port:
             tokio::spawn(async move {
                 serve_conn(&shared, node, conn, shard, port, sock, kill).await;
                 let t = shared.tick();
-                shared.st.lock().unwrap().conns[node][conn].closed = Some(t);
+                let mut st = shared.st.lock().unwrap();
+                st.conns[node][conn].closed = Some(t);
+                st.conns[node][conn].closed_at = Some(std::time::Instant::now());
             });
         }
     });
@@ -734,6 +766,7 @@ async fn serve_conn(
                 keyspace: ci.keyspace.clone(),
                 control: ci.control,
                 internal,
+                at: std::time::Instant::now(),
             };
             if st.trace {
                 eprintln!("[mock n{} c{} s{:?} #{}] {:?} ks={:?}", node, conn, req.shard, req.stream, req.parsed, req.keyspace);
@@ -777,6 +810,8 @@ async fn serve_conn(
                     }
                 }
                 Act::Close => {
+                    #[allow(deprecated)]
+                    let _ = sock.set_linger(None);
                     let _ = sock.shutdown().await;
                     return;
                 }
@@ -796,7 +831,9 @@ async fn serve_conn(
         }
         if is_startup {
             let t = shared.tick();
-            shared.st.lock().unwrap().conns[node][conn].ready = Some(t);
+            let mut st = shared.st.lock().unwrap();
+            st.conns[node][conn].ready = Some(t);
+            st.conns[node][conn].ready_at = Some(std::time::Instant::now());
         }
     }
 }
